@@ -158,7 +158,15 @@ def has_overlap_single_summary(interp, args, kwargs):
     return r
 
 
+def random_uppercase_summary(interp, args, kwargs):
+    """io/ncbi/tbl_writer.py:random_uppercase_str(size): random.choice over A-Z; modelled as SOME upper-case string of
+    that length (the fixed text 'X' * size: no contract clause looks at the random part of protein / transcript ids)."""
+    size = kwargs.get("size", args[0] if args else 10)
+    return "X" * int(size)
+
+
 SUMMARIES = {
+    "io.ncbi.tbl_writer.random_uppercase_str": random_uppercase_summary,
     HOS: has_overlap_single_summary,
     "util.bins.bins": bins_summary,
     "util.hashing.digest_object": digest_summary,
@@ -262,11 +270,17 @@ def _max_symbolic(interp, seq, kw):
     return m
 
 
-EXTERNALS = {"builtins.max.symbolic": _max_symbolic, "marshmallow.Schema": _marshmallow_schema, "Bio.Seq.Seq": bio_seq, "re.compile": _re_compile, "re.match": _re_apply("match"),
+def _random_seed(interp, args, kwargs):
+    """random.seed(n): no effect in the verifier - the only consumer of randomness under contract,
+    tbl_writer.random_uppercase_str, is replaced by its stub (see random_uppercase_summary)."""
+    return None
+
+
+EXTERNALS = {"random.seed": _random_seed, "builtins.max.symbolic": _max_symbolic, "marshmallow.Schema": _marshmallow_schema, "Bio.Seq.Seq": bio_seq, "re.compile": _re_compile, "re.match": _re_apply("match"),
              "re.search": _re_apply("search"), "re.sub": _re_sub, "re.fullmatch": _re_apply("fullmatch"),
              "collections.defaultdict": _defaultdict}
 EXTERNAL_CONSTS = {"string.punctuation": _string.punctuation, "re.IGNORECASE": int(_re.IGNORECASE),
                    "re.I": int(_re.IGNORECASE)}
-DEFAULT = [HOS, "util.bins.bins", "util.hashing.digest_object", "sequence.sequence.Sequence.validate_alphabet", "parent.make_parent", "location.location_impl.EmptyLocation"]
+DEFAULT = [HOS, "io.ncbi.tbl_writer.random_uppercase_str", "util.bins.bins", "util.hashing.digest_object", "sequence.sequence.Sequence.validate_alphabet", "parent.make_parent", "location.location_impl.EmptyLocation"]
 LIB = {"default": DEFAULT, "summaries": SUMMARIES, "loops": LOOPS, "attr_hooks": {}, "externals": EXTERNALS,
        "external_consts": EXTERNAL_CONSTS}
